@@ -67,6 +67,13 @@ def gen_cases(tier, seed):
             # the bound is relative: it must hold for data of any norm (well below and well above 1)
             yield C(w="hosvd_grid", fam=fam, shape=shape, dseed=dseed, tol=tol, sequential=bool(rng.integers(0, 2)), dimorder=None,
                     scale=[1e-3, 1e-2, 1e3][int(rng.integers(0, 3))])
+        # element type of the stored data: the bound and the structural contract do not depend on it
+        for st in ("float32", "int32", "uint8", "int16"):
+            for tol in (1e-6, 1e-4, 0.05, 0.4):
+                yield C(w="hosvd_grid", fam=fam, shape=shape, dseed=dseed, tol=tol, sequential=bool(rng.integers(0, 2)),
+                        dimorder=[int(x) for x in rng.permutation(N)] if rng.random() < 0.5 else None, store=st)
+            yield C(w="hosvd_ranks", fam=fam, shape=shape, dseed=dseed, ranks=[int(rng.integers(1, s_ + 1)) for s_ in shape], sequential=bool(rng.integers(0, 2)),
+                    dimorder=None, store=st)
     for shape in [[2, 3], [3, 2, 2]] + ([[3, 3, 2], [2, 2, 2, 2]] if tier == "thorough" else []):
         dseed = int(rng.integers(0, 2 ** 31))
         for ranks in itertools.product(*[range(1, s + 1) for s in shape]):
@@ -102,8 +109,21 @@ def gen_cases(tier, seed):
                 maxiters=int(rng.integers(1, 7)), printitn=int(rng.choice([0, 1, 2])), gseed=int(rng.integers(0, 2 ** 31)))
 
 
+STORES = {"float32": np.float32, "int32": np.int32, "uint8": np.uint8, "int16": np.int16}
+
+
 def _data(case):
-    return _data0(case) * float(case.get("scale", 1.0))
+    A = _data0(case) * float(case.get("scale", 1.0))
+    st = case.get("store")
+    if st in STORES:
+        # the same values held in a narrower element type: the reference is the float64 image of what is stored
+        if st == "float32":
+            A = A.astype(np.float32)
+        elif st == "uint8":
+            A = np.clip(np.round(np.abs(A) / (np.max(np.abs(A)) + 1e-300) * 200.0), 0, 255).astype(np.uint8)
+        else:
+            A = np.round(A / (np.max(np.abs(A)) + 1e-300) * 3000.0).astype(STORES[st])
+    return A
 
 
 def _data0(case):
@@ -142,10 +162,14 @@ def _check_ttensor(ctx, op, T, A, ranks=None, **f):
 
 
 def run_case(case, ctx):
-    A = _data(case)
+    Astored = _data(case)
+    A = np.asarray(Astored, dtype=float)
+    if not np.any(A):
+        return
     shape = A.shape
     N = A.ndim
-    X = ttb.tensor(A.copy())
+    X = ttb.tensor(Astored.copy())
+    ctx.feat(store=str(case.get("store") or "float64"))
     xdig = state_digest(X)
     normX = float(np.linalg.norm(A))
     w = case["w"]
